@@ -41,6 +41,8 @@ mod tag_sets;
 mod data;
 mod rules;
 mod types;
+#[cfg(html5ever_verif)]
+pub mod verif;
 
 /// Tree builder options, with an impl for Default.
 #[derive(Copy, Clone)]
